@@ -177,6 +177,9 @@ var funcSpecs = []funcSpec{
 	{rel: "armor", name: "(*armoredWriter).Write", abstract: []string{"format.Write"}, opaque: armorWOpaque, threadedFields: armorWThreaded},
 	{rel: "armor", name: "(*armoredWriter).Close", abstract: []string{"format.Close", "format.LastLineIsEmpty"}, opaque: armorWOpaque, threadedFields: armorWThreaded},
 	{rel: "", name: "GenerateX25519Identity", abstract: []string{"curve25519.X25519"}, opaque: map[string]string{"tapeτ": "τ"}, tape: true},
+	{rel: "plugin", name: "writeStanza", abstract: marshalAbstract, opaque: marshalOpaque, threaded: marshalThreaded},
+	{rel: "plugin", name: "writeStanzaWithBody", abstract: marshalAbstract, opaque: marshalOpaque, threaded: marshalThreaded},
+	{rel: "cmd/age", name: "(*LazyScryptIdentity).Unwrap", abstract: []string{"errors.Is", "format.DecodeString", "scrypt.Key", "age.aeadDecrypt"}},
 	{rel: "", name: "ParseRecipients", abstract: []string{"age.ParseX25519Recipient"}, opaque: map[string]string{"Recipient": "κ", "X25519Recipient": "κ"}, errInts: true},
 }
 
